@@ -321,6 +321,7 @@ func runC20(t *verifsim.Tape, cfg engine.Config) *engine.Outcome {
 		}
 		return json.Unmarshal(b, v)
 	}
+	errorIDs := map[string]string{}
 	for i, c := range clients {
 		if len(c.res) != len(c.reqs) && !sim.Tainted() {
 			o.Violate("task_incomplete", "task_incomplete", "client %d finished %d of %d requests", i, len(c.res), len(c.reqs))
@@ -385,6 +386,14 @@ func runC20(t *verifsim.Tape, cfg engine.Config) *engine.Outcome {
 				if err := decodeInto(class, r.body, &er); err != nil {
 					o.Violate("error_undecodable", "error_undecodable", "%s: %v body %q", where, err, clip(r.body))
 					continue
+				}
+				// every error a server produces gets an identifier of its own: two responses carrying the same one
+				// (or one made of two) means the identifier of one request was computed from state another request touched
+				if er.ID != "" {
+					if prev, dup := errorIDs[er.ID]; dup {
+						o.Violate("leak_error_id", "leak_error_id", "%s: its error response carries the identifier %q, which %s carries too", where, er.ID, prev)
+					}
+					errorIDs[er.ID] = where
 				}
 				wantName := map[string]string{"invalid": "invalid_pattern", "declared": "conflict", "plain": "fault", "notfound": "fault", "badbody": "decode_payload"}[q.Kind]
 				own := map[string]string{"invalid": fmt.Sprintf("bad code %d-%d", i, k), "declared": q.Token, "plain": q.Token, "notfound": "404", "badbody": ""}[q.Kind]
